@@ -51,8 +51,58 @@ fn check(arg: &str, bytes: &[u8]) -> Option<String> {
                 }
             }
         }
+        // Model::read through readers with awkward behaviour: "chunk:<k>" = at most k bytes per read call;
+        // "fail:<k>" = I/O error after k bytes; "cut:<k>" = stream ends after k bytes
+        "chunk" => {
+            let b = bytes.to_vec();
+            match catch_unwind(move || Model::read(Chunked { data: b, pos: 0, chunk: n.max(1), fail_at: usize::MAX }).map(|m| m.to_vec().ok())) {
+                Err(_) => Some(desc(arg, "Model::read panics on a reader that returns short reads")),
+                Ok(Err(_)) => Some(desc(arg, &format!("valid model rejected when the reader returns at most {} bytes per call", n.max(1)))),
+                Ok(Ok(v)) if v.as_deref() != Some(bytes) => Some(desc(arg, "model read through a short-read reader re-serialises differently")),
+                _ => None,
+            }
+        }
+        "fail" | "cut" => {
+            let b = if kind == "cut" { bytes[..n].to_vec() } else { bytes.to_vec() };
+            let fail_at = if kind == "fail" { n } else { usize::MAX };
+            match catch_unwind(move || Model::read(Chunked { data: b, pos: 0, chunk: 7, fail_at }).is_ok()) {
+                Err(_) => Some(desc(arg, "Model::read panics on a failing / truncated reader")),
+                Ok(true) if n < bytes.len() => Some(desc(arg, "Model::read accepted a stream that failed or ended early")),
+                _ => None,
+            }
+        }
+        "wfail" => {
+            let (m, _) = Model::read_slice(bytes).ok()?;
+            let mut w = FailingWriter { written: 0, fail_at: n };
+            match catch_unwind(std::panic::AssertUnwindSafe(|| m.write(&mut w).is_ok())) {
+                Err(_) => Some(desc(arg, "Model::write panics on a failing writer")),
+                Ok(true) if n < bytes.len() => Some(desc(arg, "Model::write reported success although the writer failed")),
+                _ => None,
+            }
+        }
         _ => None,
     }
+}
+
+struct Chunked { data: Vec<u8>, pos: usize, chunk: usize, fail_at: usize }
+impl std::io::Read for Chunked {
+    fn read(&mut self, buf: &mut [u8]) -> std::io::Result<usize> {
+        if self.pos >= self.fail_at { return Err(std::io::Error::new(std::io::ErrorKind::Other, "injected")); }
+        let n = buf.len().min(self.chunk).min(self.data.len() - self.pos).min(self.fail_at - self.pos);
+        buf[..n].copy_from_slice(&self.data[self.pos..self.pos + n]);
+        self.pos += n;
+        Ok(n)
+    }
+}
+struct FailingWriter { written: usize, fail_at: usize }
+impl std::io::Write for FailingWriter {
+    fn write(&mut self, buf: &[u8]) -> std::io::Result<usize> {
+        if self.written >= self.fail_at { return Err(std::io::Error::new(std::io::ErrorKind::Other, "injected")); }
+        let n = buf.len().min(self.fail_at - self.written).max(1).min(buf.len());
+        self.written += n;
+        Ok(n)
+    }
+    fn flush(&mut self) -> std::io::Result<()> { Ok(()) }
 }
 
 pub fn search() -> Option<String> {
@@ -78,6 +128,18 @@ pub fn search() -> Option<String> {
     for k in [0usize, 1, 7, 300] {
         if let Some(d) = check(&format!("trail:{k}"), &bytes) {
             return Some(d);
+        }
+    }
+    for k in [1usize, 2, 3, 5, 24, 25, 26, 64, 100000] {
+        if let Some(d) = check(&format!("chunk:{k}"), &bytes) {
+            return Some(d);
+        }
+    }
+    for k in 0..bytes.len() {
+        for kind in ["fail", "cut", "wfail"] {
+            if let Some(d) = check(&format!("{kind}:{k}"), &bytes) {
+                return Some(d);
+            }
         }
     }
     None
